@@ -3774,7 +3774,7 @@ def SIS_super_compact_pairwise_from_graph(G, tau, gamma, initial_infecteds=None,
         SX0 = np.dot(Sk0,ks)
         SS0 = (1-rho)*SX0
         SI0 = rho*SX0
-        II0 = np.dot(Nk,ks)-SX0
+        II0 = rho*(np.dot(Nk,ks)-SX0)
         
     Pk = get_Pk(G)
     Pks = np.array([Pk.get(k,0) for k in ks])
